@@ -146,6 +146,8 @@ def check_expr(expr, a, b, c, position):
             return False
     elif position == 'enum':
         nodes, errors = run_parser('enum E { E_1 = %s, E_2 = E_1 + 2 };\n' % expr, env)
+        if not (0 <= ref and ref + 2 <= 0xFFFFFFFF):
+            return len(errors) >= 1                     # enumerators outside 32 bits must be diagnosed
         if errors:
             return False
         if int(nodes[0].members[0].value) != ref or int(nodes[0].members[1].value) != ref + 2:
@@ -165,6 +167,8 @@ def check_expr(expr, a, b, c, position):
             return False
     else:
         nodes, errors = run_parser('union U { %s: u8 a; };\n' % expr, env)
+        if not (0 <= ref <= 0xFFFFFFFF):
+            return len(errors) >= 1                     # discriminators outside 32 bits must be diagnosed
         if errors:
             return False
         if int(nodes[0].members[0].discriminator) != ref:
